@@ -11,6 +11,7 @@ import (
 	"sync"
 	"testing"
 
+	rn "github.com/Trisia/randomness"
 	"pgregory.net/rapid"
 
 	"verif/harness/evid"
@@ -97,8 +98,36 @@ func rec(id string) *evid.Recorder {
 	return r
 }
 
+// hostilePrelude: legal API use before any property runs - every slice / struct the library hands out is
+// overwritten by the caller.  If a result aliases shared state (a lookup table, a cached plan, a pooled buffer),
+// everything computed afterwards in this process is affected and the properties' oracles see it.
+func hostilePrelude() {
+	defer func() { _ = recover() }()
+	for v := 0; v < 256; v++ {
+		b := rn.B2bit(byte(v))
+		for i := range b {
+			b[i] = i%3 == 0 // not the complement: most statistics are invariant under complementing every bit
+		}
+	}
+	data := make([]byte, 1200)
+	for i := range data {
+		data[i] = byte(i*37 + i/256)
+	}
+	e := rn.B2bitArr(data)
+	for i := range e {
+		e[i] = i%3 == 0
+	}
+	for _, it := range rn.TestMethodArr {
+		r := it.Runner(data)
+		r.P, r.Q, r.P2, r.Q2, r.Pass, r.Name = -1, -1, -1, -1, !r.Pass, ""
+	}
+}
+
 func TestMain(m *testing.M) {
 	flag.Parse()
+	if os.Getenv("VERIF_NO_PRELUDE") == "" {
+		hostilePrelude()
+	}
 	code := m.Run()
 	out := os.Getenv("VERIF_EVID_OUT")
 	flushFuzz(os.Getenv("VERIF_FUZZ_PROP"), out)
